@@ -1,6 +1,6 @@
 \* every interleaving, one instance (plain loop), counts 0..3, two outputs.  The driver generates the
 \* other configurations (NI, Counts, Outs, Scatter, Eager) from this template.
-CONSTANTS NI = 1  Counts = {0, 1, 2, 3}  Outs = {"o1", "o2"}  Scatter = FALSE  Eager = FALSE
+CONSTANTS NI = 1  Counts = {0, 1, 2, 3}  Outs = {"o1", "o2"}  Scatter = FALSE  IdxSet = {0}  Eager = FALSE
 INIT Init
 NEXT Next
 VIEW View
@@ -10,3 +10,4 @@ INVARIANT I2
 INVARIANT I3
 INVARIANT TermLast
 INVARIANT CounterOK
+INVARIANT ChkOK
